@@ -533,8 +533,8 @@ impl<'a, 'ast> Visit<'ast> for FnScan<'a> {
             }
         }
         // R13: range `for` loops are desugared to `while` loops over an explicit cursor (independent of vstd's iterator specs):
-        //   for i in A..B { body }          ->  let mut i_cur = A; let i_end = B; while i_cur < i_end { let i = i_cur; i_cur += 1; body }
-        //   for i in (A..B).rev() { body }  ->  let i_lo = A; let mut i_cur = B; while i_cur > i_lo { i_cur -= 1; let i = i_cur; body }
+        //   for i in A..B { body }          ->  let i_lo = A; let i_end = B; let mut i_cur = i_lo;  while i_cur < i_end { let i = i_cur; i_cur += 1; body }
+        //   for i in (A..B).rev() { body }  ->  let i_lo = A; let i_end = B; let mut i_cur = i_end; while i_cur > i_lo { i_cur -= 1; let i = i_cur; body }
         if self.rules.rev_range {
             if let syn::Stmt::Expr(syn::Expr::ForLoop(fl), _) = s {
                 if let syn::Pat::Ident(pi) = &*fl.pat {
@@ -558,9 +558,9 @@ impl<'a, 'ast> Visit<'ast> for FnScan<'a> {
                             let hi = self.src[b0..b1].to_string();
                             let body_open = fl.body.brace_token.span.open().byte_range().start;
                             let (head_text, first) = if rev {
-                                (format!("let {v}_lo = {lo}; let mut {v}_cur = {hi}; while {v}_cur > {v}_lo ", v = v, hi = hi, lo = lo), format!(" {v}_cur -= 1; let {v} = {v}_cur; ", v = v))
+                                (format!("let {v}_lo = {lo}; let {v}_end = {hi}; let mut {v}_cur = {v}_end; while {v}_cur > {v}_lo ", v = v, hi = hi, lo = lo), format!(" {v}_cur -= 1; let {v} = {v}_cur; ", v = v))
                             } else {
-                                (format!("let mut {v}_cur = {lo}; let {v}_end = {hi}; while {v}_cur < {v}_end ", v = v, hi = hi, lo = lo), format!(" let {v} = {v}_cur; {v}_cur += 1; ", v = v))
+                                (format!("let {v}_lo = {lo}; let {v}_end = {hi}; let mut {v}_cur = {v}_lo; while {v}_cur < {v}_end ", v = v, hi = hi, lo = lo), format!(" let {v} = {v}_cur; {v}_cur += 1; ", v = v))
                             };
                             self.push_edit(start, body_open, head_text, "R13:range-for-loop", vec![lo, hi, v.clone()]);
                             self.seq += 1;
